@@ -120,6 +120,7 @@ Fixpoint item_of_decl (d : decl) : option item :=
     end
   | DVar {| v_ty := t; v_name := n; v_default := None |} => Some (IVar t n)
   | DFwd {| fw_virtual := v; fw_tn := Typename [] (NStr n) []; fw_parent := None |} => Some (IFwd v n)
+  | DInclude h => Some (IInc h)
   | _ => match fn_of_decl d with Some x => Some (IFn x) | None => None end
   end.
 Fixpoint items_of_decls (l : list decl) : option (list item) :=
@@ -147,6 +148,7 @@ Proof.
          [inversion H; subst i; cbn [idecl]; apply decl_of_fn; exact E | discriminate]).
   - destruct fw as [v [ns [n|o] insts] [pa|]]; cbn [item_of_decl fn_of_decl] in H; try discriminate;
       destruct ns; try discriminate; destruct insts; try discriminate. inversion H; subst i. reflexivity.
+  - cbn [item_of_decl] in H. inversion H; subst i. reflexivity.
   - destruct v as [t n [dflt|]]; cbn [item_of_decl fn_of_decl] in H; [discriminate|]. inversion H; subst i. reflexivity.
   - rewrite item_of_ns in H. destruct (items_of_decls ds) as [b|] eqn:E; [|discriminate]. inversion H; subst i. cbn [idecl]. f_equal.
     cbn [idepth] in Hd.
@@ -165,21 +167,33 @@ Proof.
   inversion H; subst items. cbn [map]. rewrite (idecl_item (S (idepth a)) a (Nat.lt_succ_diag_r _) d Ea), (IH b eq_refl). reflexivity.
 Qed.
 
+Definition path_okb_c (path : chars) : bool :=
+  match path with c :: _ => solid c | [] => false end && forallb not_gt path && forallb (fun x => negb (Nat.eqb (code x) 9)) path.
+Lemma path_okb_c_ok : forall path, path_okb_c path = true -> path_ok_c path.
+Proof.
+  intros path H. unfold path_okb_c in H. apply andb_true_iff in H. destruct H as [H H3]. apply andb_true_iff in H. destruct H as [H1 H2].
+  split; [destruct path; [discriminate | exact H1]|]. split; [exact H2|].
+  apply Forall_forall. intros x Hx. rewrite forallb_forall in H3. specialize (H3 x Hx). apply negb_true_iff in H3.
+  intros E. rewrite E in H3. discriminate.
+Qed.
+
 Fixpoint wf_itemb (i : item) : bool :=
   match i with
   | IFn x => wf_fnb x
   | IVar t n => wf_tyb t && Nat.ltb (depth t) depth_fuel && head_okb t && is_ident (chars_of n)
   | IFwd _ n => is_ident (chars_of n)
+  | IInc h => path_okb_c (chars_of h)
   | INs n b => is_ident (chars_of n) && forallb wf_itemb b
   end.
 Lemma wf_itemb_ok : forall k i, idepth i < k -> wf_itemb i = true -> wf_item i.
 Proof.
-  induction k as [|k IH]; intros i Hd H; [lia|]. destruct i as [x|t n|vt n|n b]; cbn [wf_itemb wf_item] in *.
+  induction k as [|k IH]; intros i Hd H; [lia|]. destruct i as [x|t n|vt n|hd|n b]; cbn [wf_itemb wf_item] in *.
   - apply wf_fnb_ok. exact H.
   - apply andb_true_iff in H. destruct H as [H H4]. apply andb_true_iff in H. destruct H as [H H3].
     apply andb_true_iff in H. destruct H as [H1 H2]. apply Nat.ltb_lt in H2.
     split; [apply (wf_tyb_ok _ _ H2 H1)|]. split; [exact H2|]. split; [apply head_okb_ok; exact H3 | exact H4].
   - exact H.
+  - apply path_okb_c_ok. exact H.
   - apply andb_true_iff in H. destruct H as [H1 H2]. split; [exact H1|]. cbn [idepth] in Hd.
     assert (Hb : forall j, In j b -> wf_item j).
     { intros j Hj. apply IH; [pose proof (idepth_ge b j Hj); lia | rewrite forallb_forall in H2; apply H2; exact Hj]. }
